@@ -1,12 +1,13 @@
 (* Properties/C02.v — deterministic encoding is byte-identical to the reference encoder.
-   Statements only; proofs in Proofs/KeyBytes.v and Proofs/CodecRef.v.
+   Statements only; proofs in Proofs/KeyBytes.v, Proofs/CodecRef.v and Proofs/MarshalProgProofs.v.
    Codec.emit _ true is the faithful model of the marshal template under Deterministic;
    RefSpec.ref_marshal is written independently: a list of wire records (Wire.wrec) in
    order.LegacyFieldOrder, each with the tag varint of (number, wire type), map entries sorted by
    key with key and value always present, packed runs, proto3 defaults omitted, unknown last.
    The runner checks generated code = dynamicpb deterministic bytes on every case, and the driver
    checks emit = ref_marshal on every well-typed case, so ref_marshal is tied to protobuf-go. *)
-From CP Require Import Extra KeyBytes CodecRef.
+From CP Require Import Extra KeyBytes CodecRef MarshalProg.
+From CP Require MarshalProgProofs.
 Local Open Scope N_scope.
 
 (* the key bytes the generator prints at GENERATION time (encodeKey: uint32(num)<<3|wt, 7 bits at a
@@ -28,4 +29,39 @@ Proof. exact CodecRef.det_eq_ref. Qed.
 
 Example key_example : key_bytes 536870911 2 = tag 536870911 2 /\ length (key_bytes 536870911 2) = 5%nat /\
                       key_bytes 16 0 = [x80; x01] /\ key_size 2047 5 = 2.
+Proof. vm_compute. repeat split; reflexivity. Qed.
+
+(* Translator tie (Model/MarshalProg.v): the program the marshal template emits for a message type, [canon_marshal]
+   (the Go runner translates the body of every generated marshal closure into this syntax and the driver compares it
+   with canon_marshal syntactically), run by the MarshalProg interpreter (buffer filled from the back, every
+   reservation filled exactly) on any well-typed value of any well-formed schema, in either mode, writes exactly
+   Codec.emit. So the model emit is the meaning of the generated statements themselves. *)
+Theorem marshal_prog_correct : MarshalProg.marshal_prog_correct_stmt.
+Proof. exact MarshalProgProofs.marshal_prog_correct. Qed.
+
+(* non-vacuity: a map of two entries with message values (one nil) whose list order is not the key order, a oneof
+   holding a wrapper with a nil message (its int32 member not set), a packed varint list (with a negative int32), a
+   packed fixed32 list, unpacked strings (one empty), a sint32, a double, unknown bytes; both modes (the two
+   encodings differ in the order of the map entries) *)
+Definition mp_schema : schema :=
+  [ {| m_fields := [ {| f_num := 1; f_ty := TScalar KSint32; f_shape := Singular |};
+                     {| f_num := 2048; f_ty := TMsg 1; f_shape := MapOf KString |};
+                     {| f_num := 3; f_ty := TScalar KInt32; f_shape := Rep true |};
+                     {| f_num := 4; f_ty := TScalar KFixed32; f_shape := Rep true |};
+                     {| f_num := 5; f_ty := TScalar KString; f_shape := Rep false |};
+                     {| f_num := 6; f_ty := TScalar KInt32; f_shape := Member 0 |};
+                     {| f_num := 536870911; f_ty := TMsg 1; f_shape := Member 0 |};
+                     {| f_num := 8; f_ty := TScalar KDouble; f_shape := Singular |} ];
+       m_oneofs := 1; m_impl := Pulsar |};
+    {| m_fields := [ {| f_num := 1; f_ty := TScalar KString; f_shape := Singular |} ]; m_oneofs := 0; m_impl := Pulsar |} ].
+Definition mp_value : val :=
+  VMsg [ VInt (-3); VMap [ (VBytes [x6b], VNil); (VBytes [x61], VMsg [VBytes [x68; x69]] [x08; x01]) ];
+         VList [VInt 1; VInt (-1); VInt 300]; VList [VInt 7; VInt 4294967295];
+         VList [VBytes [x61; x62]; VBytes []]; VNil; VSome VNil; VBits 4611686018427387904 ] [xf8; x01; x07].
+Example marshal_prog_example :
+  wf mp_schema = true /\ wt_msg mp_schema 0 mp_value = true /\
+  run_marshal mp_schema true 0 (canon_marshal mp_schema 0) mp_value = Some (emit mp_schema true 0 mp_value) /\
+  run_marshal mp_schema false 0 (canon_marshal mp_schema 0) mp_value = Some (emit mp_schema false 0 mp_value) /\
+  length (emit mp_schema true 0 mp_value) = 75%nat /\ length (emit mp_schema false 0 mp_value) = 75%nat /\
+  mp_bytes_eqb (emit mp_schema true 0 mp_value) (emit mp_schema false 0 mp_value) = false.
 Proof. vm_compute. repeat split; reflexivity. Qed.
